@@ -218,9 +218,15 @@ func (c ProgCfg) pickHost(r *Rand, doc any, target Pos, want func(any) bool) (Po
 		if !want(v) {
 			continue
 		}
-		if len(p) > 0 && p[len(p)-1].IsKey && strings.HasPrefix(p[len(p)-1].Key, "$") {
-			// never replace a directive's argument by a reference: a $repeat
-			// count reached through a reference escapes the bound on counts
+		underDirective := false
+		for _, st := range p {
+			if st.IsKey && strings.HasPrefix(st.Key, "$") {
+				underDirective = true
+			}
+		}
+		if underDirective {
+			// never replace (part of) a directive's argument by a reference:
+			// a $repeat count reached through a reference escapes the bound on counts
 			continue
 		}
 		if IsPrefix(target, p) {
